@@ -71,7 +71,7 @@ Proof. vm_compute. reflexivity. Qed.
      echo "done";
  *)
 Definition ex_prog : prog :=
-  {| funcs := [{| fname := "thrower"; fparams := [("k", None)]; fbody := (SSeq (SEcho (ELit (VStr "T"))) (SSeq (SThrow (ENew "E2" (ELit (VStr "deep")))) (SEcho (ELit (VStr "never"))))) |}; {| fname := "run"; fparams := []; fbody := (SSeq (SFor (ACons (EAssign "i" (ELit (VInt 0))) ANil) (EBin Lt (EVar "i") (ELit (VInt 2))) (ACons (EPostInc "i") ANil) (SSeq (SEcho (ELit (VStr "["))) (SSeq (STry (SSeq (SEcho (ELit (VStr "t"))) (SSeq (SThrow (ENew "E2" (ELit (VStr "m2")))) (SEcho (ELit (VStr "u"))))) (CTCons "E1" (Some "e") (SSeq (SEcho (ELit (VStr "c1:"))) (SSeq (SEcho (EBin Concat (EClass (EVar "e")) (EBin Concat (ELit (VStr "/")) (EMsg (EVar "e"))))) (SThrow (EVar "e")))) (CTCons "E2" (Some "e") (SSeq (SEcho (ELit (VStr "c2:"))) (SEcho (EBin Concat (EClass (EVar "e")) (EBin Concat (ELit (VStr "/")) (EMsg (EVar "e")))))) CTNil)) (SEcho (ELit (VStr "f")))) (SEcho (ELit (VStr "]")))))) (SSeq (SEcho (ELit (VStr "end"))) (SReturn (Some (ELit (VInt 7)))))) |}]; main := (SSeq (STry (SEcho (EBin Concat (ELit (VStr "r=")) (ECall "run" ANil))) (CTCons "E4" (Some "x") (SSeq (SEcho (ELit (VStr "outer4:"))) (SEcho (EMsg (EVar "x")))) (CTCons "Exception" (Some "x") (SSeq (SEcho (ELit (VStr "outerX:"))) (SIf (ESame (EVar "x") (EVar "x")) (SEcho (ELit (VStr "self"))) EINil SSkip)) CTNil)) (SEcho (ELit (VStr "F")))) (SEcho (ELit (VStr "done")))) |}.
+  {| funcs := [{| fname := "thrower"; fparams := [("k", None)]; fbody := (SSeq (SEcho (ELit (VStr "T"))) (SSeq (SThrow (ENew "E2" (ELit (VStr "deep")))) (SEcho (ELit (VStr "never"))))) |}; {| fname := "run"; fparams := []; fbody := (SSeq (SFor (ACons (EAssign "i" (ELit (VInt 0))) ANil) (EBin Lt (EVar "i") (ELit (VInt 2))) (ACons (EPostInc "i") ANil) (SSeq (SEcho (ELit (VStr "["))) (SSeq (STry (SSeq (SEcho (ELit (VStr "t"))) (SSeq (SThrow (ENew "E2" (ELit (VStr "m2")))) (SEcho (ELit (VStr "u"))))) (CTCons "E1" (Some "e") (SSeq (SEcho (ELit (VStr "c1:"))) (SSeq (SEcho (EBin Concat (EClass (EVar "e")) (EBin Concat (ELit (VStr "/")) (EMsg (EVar "e"))))) (SThrow (EVar "e")))) (CTCons "E2" (Some "e") (SSeq (SEcho (ELit (VStr "c2:"))) (SEcho (EBin Concat (EClass (EVar "e")) (EBin Concat (ELit (VStr "/")) (EMsg (EVar "e")))))) CTNil)) (SEcho (ELit (VStr "f")))) (SEcho (ELit (VStr "]")))))) (SSeq (SEcho (ELit (VStr "end"))) (SReturn (Some (ELit (VInt 7)))))) |}]; closures := []; main := (SSeq (STry (SEcho (EBin Concat (ELit (VStr "r=")) (ECall "run" ANil))) (CTCons "E4" (Some "x") (SSeq (SEcho (ELit (VStr "outer4:"))) (SEcho (EMsg (EVar "x")))) (CTCons "Exception" (Some "x") (SSeq (SEcho (ELit (VStr "outerX:"))) (SIf (ESame (EVar "x") (EVar "x")) (SEcho (ELit (VStr "self"))) EINil SSkip)) CTNil)) (SEcho (ELit (VStr "F")))) (SEcho (ELit (VStr "done")))) |}.
 Example ex_wf : wf ex_prog = true.
 Proof. vm_compute. reflexivity. Qed.
 Example ex_clean : clean ex_prog = true.
@@ -84,13 +84,13 @@ Proof. vm_compute. reflexivity. Qed.
 
 (* rethrow through an outer finally keeps class, message and identity *)
 Definition ex_rethrow : prog :=
-  {| funcs := []; main := (SSeq (SExpr (EAssign "o" (ENew "E2" (ELit (VStr "re"))))) (STry (STry (SThrow (EVar "o")) (CTCons "E1" (Some "e") (SSeq (SEcho (ELit (VStr "inner;"))) (SThrow (EVar "e"))) CTNil) (SEcho (ELit (VStr "f1;")))) (CTCons "E2" (Some "e2") (SSeq (SEcho (ELit (VStr "outer:"))) (SSeq (SEcho (EClass (EVar "e2"))) (SSeq (SEcho (EMsg (EVar "e2"))) (SIf (ESame (EVar "e2") (EVar "o")) (SEcho (ELit (VStr ";same"))) EINil (SEcho (ELit (VStr ";different"))))))) (CTCons "Exception" (Some "e2") (SEcho (ELit (VStr "lost-class"))) CTNil)) (SEcho (ELit (VStr ";f2"))))) |}.
+  {| funcs := []; closures := []; main := (SSeq (SExpr (EAssign "o" (ENew "E2" (ELit (VStr "re"))))) (STry (STry (SThrow (EVar "o")) (CTCons "E1" (Some "e") (SSeq (SEcho (ELit (VStr "inner;"))) (SThrow (EVar "e"))) CTNil) (SEcho (ELit (VStr "f1;")))) (CTCons "E2" (Some "e2") (SSeq (SEcho (ELit (VStr "outer:"))) (SSeq (SEcho (EClass (EVar "e2"))) (SSeq (SEcho (EMsg (EVar "e2"))) (SIf (ESame (EVar "e2") (EVar "o")) (SEcho (ELit (VStr ";same"))) EINil (SEcho (ELit (VStr ";different"))))))) (CTCons "Exception" (Some "e2") (SEcho (ELit (VStr "lost-class"))) CTNil)) (SEcho (ELit (VStr ";f2"))))) |}.
 Example ex_rethrow_impl : run_impl5 ex_table 300 ex_rethrow = ("inner;f1;outer:E2re;same;f2", EndOk).
 Proof. vm_compute. reflexivity. Qed.
 
 (* the event log of the first program is balanced, and non-trivially so: it contains try/finally events *)
 Example ex_events :
-  match iexec (cmatch_impl ex_table) (funcs ex_prog) 300 "" (main ex_prog) empty_frame empty_glob with
+  match iexec (cmatch_impl ex_table) (funcs ex_prog) (closures ex_prog) 300 "" (main ex_prog) empty_frame empty_glob with
   | Res _ _ g => (List.length (filter (fun c => match c with CTry => true | _ => false end) (gout g)),
                   List.length (filter (fun c => match c with CFin => true | _ => false end) (gout g)),
                   bal (rev (gout g)) 0)
@@ -104,7 +104,7 @@ Example ex_find : find_catch (cmatch_impl ex_table)
                     (VObj 3 "E2" "m") = Some (Some "e", SBreak 1).
 Proof. vm_compute. reflexivity. Qed.
 Example ex_finally_return :
-  iexec no_catch [] 10 "f" (SReturn (Some (ELit (VInt 3)))) empty_frame (mark CFin empty_glob)
+  iexec no_catch [] [] 10 "f" (SReturn (Some (ELit (VInt 3)))) empty_frame (mark CFin empty_glob)
   = Res (IRet (VInt 3)) empty_frame (mark CFin empty_glob).
 Proof. reflexivity. Qed.
 
